@@ -50,6 +50,7 @@ func (ex *Exec) callStd3(full string, fobj *types.Func, args []Value, e *ast.Cal
 		for i := 0; i < 32; i++ {
 			b := rndByte(cur, i)
 			ex.st.addFact(And(Le(IntI(0), b), Lt(b, IntI(256))), "entropy byte range")
+			ex.st.ranges[b] = bi(256)
 			buf.Obj.Cells[buf.Off+i] = b
 		}
 		ex.noteWrite(buf.Obj, buf.Off, 32)
